@@ -337,12 +337,22 @@ class GapUnit:
         res, stats = explore(world, setup, lambda it, a: it.call(f, a, {}))
         # classify the paths: which condition leads to one joint sequence
         joint, split = [], []
+        shapes_ok = True
         for r in res:
             if r.kind != "return":
                 ob("total", False, "%s: %s" % (r.kind, r.value))
                 return obs, {"paths": stats["paths"]}
             extra = r.it.pc[r.it.n_setup_pc:]
-            (joint if len(r.value) == 1 and len(r.value[0]) == 2 else split).append(z3.And(*extra) if extra else z3.BoolVal(True))
+            is_joint = len(r.value) == 1 and len(r.value[0]) == 2
+            (joint if is_joint else split).append(z3.And(*extra) if extra else z3.BoolVal(True))
+            if is_joint:
+                shapes_ok = shapes_ok and r.value[0][0] is m0 and r.value[0][1] is m1
+            else:
+                # not adjacent (overlap or a gap): each match is a sequence of its own, none is lost, none twice
+                shapes_ok = shapes_ok and len(r.value) == 2 and all(isinstance(t, tuple) and len(t) == 1 for t in r.value) \
+                    and {id(t[0]) for t in r.value} == {id(m0), id(m1)}
+        ob("two-matches-give-one-joint-sequence-or-two-single-ones", shapes_ok,
+           "for two matches the result is neither [(m0, m1)] nor the two single sequences (a match is lost or repeated)")
         tv = [d for d in set(str(x) for c in joint + split for x in _bools(c)) if d.startswith("truthy!")]
         ob("one-white-space-test-decides", len(tv) == 1, "expected exactly one uninterpreted test (the separator match), found %s" % tv)
         if len(tv) == 1:
